@@ -24,7 +24,7 @@ Definition xrun (w : wrapper) (p : list instr) (c : call) (sch : sched) (tab : l
 Definition no_sched : sched := mkSched (fun _ => None) (fun _ => None).
 Definition anon_at (pc : nat) : sched :=
   mkSched (fun i => if Nat.eqb i pc then Some EInjected else None) (fun _ => None).
-Definition loop_at (pc done : nat) (half : bool) : sched :=
+Definition loop_at (pc : nat) (done : list nat) (half : option nat) : sched :=
   mkSched (fun _ => None) (fun i => if Nat.eqb i pc then Some (mkCrash done half EInjected) else None).
 
 Definition exn_code (x : exn) : nat :=
@@ -60,6 +60,12 @@ Definition check_obs (r : result XV XQ xattr (list nat)) (o : xobs) : bool :=
   store_eqb (r_store XV XQ xattr (list nat) r) (ob_store o) &&
   trace_eqb (r_trace XV XQ xattr (list nat) r) (ob_trace o).
 
+Fixpoint subsets (l : list nat) : list (list nat) :=
+  match l with
+  | [] => [[]]
+  | x :: r => let s := subsets r in s ++ map (cons x) s
+  end.
+
 Inductive fault := NoFault | AtPc (pc : nat) | InLoop (pc : nat).
 
 Record xcase := mkCase { x_store : list xobj; x_call : call; x_tab : list beh; x_fault : fault;
@@ -78,9 +84,11 @@ Definition check_case (w : wrapper) (p : list instr) (x : xcase) : bool :=
   match x_fault x with
   | NoFault => run_seq w p (x_call x) no_sched (x_tab x) 0 (x_store x) (x_obs x)
   | AtPc pc => run_seq w p (x_call x) (anon_at pc) (x_tab x) 0 (x_store x) (x_obs x)
-  | InLoop pc => existsb (fun done => existsb (fun half =>
+  | InLoop pc => (* the loops run over a set: any subset of the reset list may be done, one entry half done *)
+                 let n := Nat.pred (length (x_store x)) in
+                 existsb (fun done => existsb (fun half =>
                      run_seq w p (x_call x) (loop_at pc done half) (x_tab x) 0 (x_store x) (x_obs x))
-                     [false; true]) (seq 0 (S (length (x_store x))))
+                     (None :: map Some (seq 0 n))) (subsets (seq 0 n))
   end.
 
 Fixpoint failing_from (w : wrapper) (p : list instr) (i : Z) (cs : list xcase) : list Z :=
